@@ -176,6 +176,9 @@ def has_int(e):
     return _walk_has(e, lambda t: z3.is_int(t) and not z3.is_int_value(t) and t.num_args() == 0, set())
 
 
+LAST_CTX = None
+
+
 class PathResult:
     __slots__ = ("ctx", "value", "exc")
 
@@ -216,6 +219,8 @@ def explore(fn, max_paths=200000, stats=None, catch=(Exception,)):
         if n > max_paths:
             raise Inconclusive("too many paths")
         if res is not None:
+            global LAST_CTX
+            LAST_CTX = ctx  # the path being judged by the harness (Collector.fail takes its model from here when none is given)
             yield res
 
 
